@@ -79,6 +79,21 @@ func initAllowed(path string) bool {
 		"errors", "io", "io/fs", "internal/oserror", "path", "path/filepath", "internal/filepathlite", "bufio", "go/token",
 		"go/types", "go/ast", "go/constant", "go/scanner", "unicode/utf16", "math/bits", "internal/stringslite", "internal/bytealg", "cmp", "iter", "text/scanner", "context", "github.com/go-courier/logr", "github.com/octohelm/x/context", "github.com/octohelm/x/types":
 		return true
+	// the real parser, type checker and printer (harnesses that hand Go source to
+	// the code under test run them; the Execute scenarios keep the ParseFile /
+	// format.Node contract stubs unless a harness asks for the real bodies)
+	case "go/parser", "go/build/constraint", "internal/types/errors", "go/version", "internal/goversion", "internal/gover",
+		"math/big", "math", "internal/godebug", "go/internal/typeparams", "container/heap", "go/format", "go/printer",
+		"text/tabwriter", "go/doc/comment":
+		return true
+	}
+	// experiments: GOSYM_EXTRA_ALLOW=pkg1,pkg2 interprets more packages from source
+	if extra := os.Getenv("GOSYM_EXTRA_ALLOW"); extra != "" {
+		for _, e := range strings.Split(extra, ",") {
+			if e == path {
+				return true
+			}
+		}
 	}
 	return false
 }
